@@ -5,6 +5,7 @@ history of the trie-building op language, not only to the event logs the harness
 -/
 import Verif.Model.MptInterp
 import Verif.Lemmas.TrieRun
+import Verif.Lemmas.NotStuck
 import Verif.Lemmas.MptEncInj
 namespace Verif.MptStore
 open Verif.Mpt Collector
@@ -118,7 +119,7 @@ theorem hist_tree_ok {H : Bytes → Bytes} {U : Ref → Prop} {Vok : Nat → Pro
   exact ⟨hw', hu'⟩
 
 /-- the side conditions of one op: the events of an own operation stay inside `U` and run at an allowed version;
-    a merge's ordering is not stuck -/
+    (a merge needs none: its ordering is never stuck, `trieRun_not_stuck`) -/
 def StepIn (H : Bytes → Bytes) (ord : List (Change Ref) → List (Change Ref)) (U : Ref → Prop) (Vok : Nat → Prop)
     (f : Forest) : TOp → Prop
   | .ins id p b =>
@@ -127,7 +128,6 @@ def StepIn (H : Bytes → Bytes) (ord : List (Change Ref) → List (Change Ref))
        else ∀ r ∈ eventRefs (insertE t.version b t.tree [] p).2, U r)
   | .del id p =>
     ∀ pid t, f.find id = some (pid, t) → Vok t.version ∧ ∀ r ∈ eventRefs (deleteE t.version t.tree [] p).2, U r
-  | .merge id _ => ∀ pid c, f.find id = some (pid, c) → orderStuck H (ord c.cc.getChanges) = false
   | _ => True
 
 /-! ### forest bookkeeping -/
@@ -221,7 +221,7 @@ theorem hist_delete {H : Bytes → Bytes} {U : Ref → Prop} {Vok : Nat → Prop
 
 theorem hist_merge {H : Bytes → Bytes} {U : Ref → Prop} {Vok : Nat → Prop} (hU : KeyInjOn H U) (hne : ∀ x, H x ≠ [])
     {p c : Trie} (hp : Hist H U Vok p) (hc : Hist H U Vok c) (cs : List (Change Ref)) (hperm : cs.Perm c.cc.getChanges)
-    (hstuck : orderStuck H cs = false) (p' : Trie) (hm : mergeMPTChangesOrd H p c cs = .ok p') : Hist H U Vok p' := by
+    (p' : Trie) (hm : mergeMPTChangesOrd H p c cs = .ok p') : Hist H U Vok p' := by
   simp only [mergeMPTChangesOrd] at hm
   by_cases h1 : p.root = c.root
   · simp only [h1, if_true, MergeRes.ok.injEq] at hm; rw [← hm]; exact hp
@@ -257,6 +257,9 @@ theorem hist_merge {H : Bytes → Bytes} {U : Ref → Prop} {Vok : Nat → Prop}
       -- package
       have hrun : TrieRun H U Vok p.tree (mergeEvents (orderChanges H cs) c.cc.getDeletes) c.tree := by
         have hperm' : cs.Perm ((Trie.open (root H t0c) t0c v0c).applyEvents H esC).cc.getChanges := by rw [← hc1]; exact hperm
+        -- the ordering is never stuck on the collector of a trie that ran a TrieRun (Lemmas/NotStuck)
+        have hstuck : orderStuck H cs = false :=
+          trieRun_not_stuck H U hU hcrun hcw hcu (Trie.open (root H t0c) t0c v0c) ⟨rfl, rfl⟩ cs hperm'
         have := TrieRun.merge (H := H) (U := U) (Vok := Vok) p.tree c.tree c.tree (Trie.open (root H t0c) t0c v0c) esC [] cs
           ⟨rfl, rfl⟩ (by rw [ht0]; exact hcrun) hperm' hstuck (TrieRun.nil _)
         rw [← hc1] at this
@@ -350,7 +353,7 @@ theorem step_good (H : Bytes → Bytes) (ord : List (Change Ref) → List (Chang
           cases hm : mergeMPTChangesOrd H p c (ord c.cc.getChanges) with
           | stale => exact hg
           | ok p' =>
-            have hp' := hist_merge hU hne (hg _ (find_mem hfp)) (hg _ (find_mem hf)) _ (hord _) (hin pid c hf) p' hm
+            have hp' := hist_merge hU hne (hg _ (find_mem hfp)) (hg _ (find_mem hf)) _ (hord _) p' hm
             simp only
             split
             · exact good_set hg pid p' hp'
